@@ -65,6 +65,10 @@
 	; Therefore, *_dispatch_init is only executed on first call.
 	;;;;
 	section .data
+%ifdef ISAL_CRYPTO_VERIF
+	global %1_dispatched	; verification hook: let a harness read and re-arm the binding
+	global %1_mbinit
+%endif
 	%1_dispatched:
 		mbin_def_ptr	%1_mbinit
 
